@@ -180,14 +180,20 @@ def sib_add(ctx: Ctx) -> List[Ob]:
         obs.append(ctx.ob("SIB-ADD", ["C04"], f, "position `before is False` -> append (False is normalised before the int case)", None, ok,
                           "" if ok else "isinstance(False, int) is true: before=False is inserted at index 0 although it is documented to append"))
         # whole-tree argument: the top nodes are reversed only when they are inserted at a fixed index
-        for rn, _e in _find("$$t.reverse()", f.node):
+        revs = [rn for rn, _e in _find("$$t.reverse()", f.node)] + [rn for rn, _e in _find("reversed($$t)", f.node)] + [rn for rn, _e in _find("$$t[::-1]", f.node)]
+        for rn in revs:
             pcs = path_conds(ctx, f, rn)
             texts = [("" if pol else "not ") + norm(e) for e, pol in pcs if any(isinstance(x, ast.Name) and x.id == "before" for x in ast.walk(e))]
-            ok = any(pol and (_match("isinstance(before, int)", e) is not None or _match("isinstance(before, (int,))", e) is not None) for e, pol in pcs) and not any(
-                pol and "Node" in norm(e) for e, pol in pcs)
-            obs.append(ctx.ob("SIB-ADD", ["C07", "C04"], f, "add_child(tree, before=...): the top nodes are reversed only for a fixed index position", rn, ok,
-                              "" if ok else f"`{texts}`: inserting every node before the same *node* already keeps their order; reversing first "
-                              "adds them in reverse order (and before=False must not count as an index)"))
+            is_int = any(pol and (_match("isinstance(before, int)", e) is not None or _match("isinstance(before, (int,))", e) is not None) for e, pol in pcs)
+            is_node = any(pol and "Node" in norm(e) for e, pol in pcs)
+            # guards that a node-valued `before` passes as well: witnessed too weak
+            weak = all(t in ("not before is None", "before is not None", "before", "not before is False", "before is not False") for t in texts)
+            # `type(before) is int` leaves out before=True, which is an index (0) as well
+            exact = any("type(before)" in t for t in texts)
+            ok = True if is_int and not is_node else (False if is_node or weak or exact else None)
+            obs.append(ctx.tri("SIB-ADD", ["C07", "C04"], f, "add_child(tree, before=...): the top nodes are reversed only for a fixed index position", rn, ok,
+                               "" if ok else f"`{texts}`: inserting every node before the same *node* already keeps their order; reversing first "
+                               "adds them in reverse order (and before=False must not count as an index)"))
         extra = set(tb) - set(want)
         obs.append(ctx.ob("SIB-ADD", ["C04"], f, "no undocumented position case", None, not extra, "" if not extra else f"extra cases {sorted(extra)}"))
     return obs
@@ -377,9 +383,10 @@ def sib_filter(ctx: Ctx) -> List[Ob]:
     accs = find(f"$acc.append({li.target.id})", li)
     keepv = [n for n in iter_own(fi.node) if isinstance(n, ast.Return) and isinstance(n.value, ast.Name)]
     mats = [g for g in m.func("Node._add_filtered").nested if not g.param_names()]
-    if not accs:
-        raise AnalysisError("Node.filter._visit: deferred-removal list not recognised")
-    names_i = {"rec": fi.name, "keep": keepv[0].value.id if keepv else "?", "acc": accs[0][1]["$acc"], "res": res_var(fi, li)}
+    # the in-place table is read off the flag-and-removal-list representation; another representation
+    # (a keep list, a generator of survivors ...) is answered "undecided", not "violated"
+    inplace_known = bool(accs) and len(keepv) == 1
+    names_i = {"rec": fi.name, "keep": keepv[0].value.id if keepv else "_", "acc": accs[0][1]["$acc"] if accs else "_", "res": res_var(fi, li)}
     if not mats:
         raise AnalysisError("Node._add_filtered: the parent materialiser (a nested function without parameters) was not found")
     names_c = {"rec": fc.name, "materialise": mats[0].name, "res": res_var(fc, lc)}
@@ -391,7 +398,9 @@ def sib_filter(ctx: Ctx) -> List[Ob]:
             bugs = {x for x in got if x.startswith("BUG:")}
             hard = {x for x in bugs if "rebinds" not in x}
             ok = (got - bugs) == want[v] and not hard
-            obs.append(ctx.ob("SIB-FILTER", ["C08"], f, f"verdict {v}: {sorted(want[v]) or ['nothing kept, no descent']}", None, ok,
+            if f is fi and not inplace_known and not hard:
+                ok = None
+            obs.append(ctx.tri("SIB-FILTER", ["C08"], f, f"verdict {v}: {sorted(want[v]) or ['nothing kept, no descent']}", None, ok,
                               "" if ok else f"branch does {sorted(got - bugs)}{' ' + str(sorted(hard)) if hard else ''}; documented: {sorted(want[v])} "
                               "(the in-place and the copying form must give the same result as the user-guide table)"))
     unknown = [k for k in list(ti) + list(tc) if k.startswith("?")]
